@@ -66,5 +66,10 @@ ConfItems(who) ==
      Drift("ImplList", r.unknown \/ r.crash \/ (\E i \in 1..Len(file) : file[i] = CR)
                        \/ ItemsAgree(items, ImplItems(file, r.rows)), who)
 
-ConfAll(who) == ConfTokens(who) /\ ConfTree(who) /\ ConfMarkers(who) /\ ConfOut(who) /\ ConfCrash(who) /\ ConfItems(who)
+ConfPretty(who) ==
+  (pc = "returned" /\ op \in {"list", "list_all"}) =>
+     LET r == ImplMarkersAll(file, cfg, op = "list_all") IN
+     Drift("ImplPretty", r.unknown \/ r.crash \/ (\E i \in 1..Len(file) : file[i] = CR) \/ out = ImplPretty(file, r.rows), who)
+
+ConfAll(who) == ConfTokens(who) /\ ConfTree(who) /\ ConfMarkers(who) /\ ConfOut(who) /\ ConfCrash(who) /\ ConfItems(who) /\ ConfPretty(who)
 =============================================================================
